@@ -109,6 +109,9 @@ var c10Dribbles = func() []struct {
 // (0xD8 / 0xDC: as the high byte of a UTF-16 code unit they make it a lone high / low surrogate)
 var c10Subst = []byte{0, 1, 2, 3, 4, 7, 8, 0x7F, 0x80, 0xFE, 0xFF, 0xD8, 0xDC}
 
+// c10HeaderFloods: headers of length 0..7 followed by 66000 / 132000 bytes
+const c10HeaderFloods = 16
+
 // c10SubstN is the number of substitutions tried per byte: the absolute values above and the original value
 // plus and minus 1..4 (lengths and counts that are slightly off).
 const c10SubstN = 13 + 8
@@ -192,7 +195,7 @@ func c10LenTypes() []peer.Entry {
 var c10CrossSeqs = [][]byte{{0xD1, 0xD1}, {0xD1, 0xD7}, {0xD7, 0xD1}, {0xD7, 0xD7}, {0xD7, 0xD7, 0xD1}, {0xD1, 0xD1, 0xD7}}
 
 func (c10) NRuns(tier string) int {
-	n := c10BuildEnum(tier).total + len(c10LenTypes())*256 + 10*2*24 + len(fmtNames)*len(c10CrossSeqs) + c10PackPasses*len(c10PackSizes) + len(c10Dribbles)
+	n := c10BuildEnum(tier).total + len(c10LenTypes())*256 + 10*2*24 + c10HeaderFloods + len(fmtNames)*len(c10CrossSeqs) + c10PackPasses*len(c10PackSizes) + len(c10Dribbles)
 	if tier == "thorough" {
 		return n + 3000000
 	}
@@ -305,6 +308,19 @@ func c10Gen(r *Rand, idx int, tier string) *c10Plan {
 		return p
 	}
 	i -= 10 * 2 * 24
+	if i < c10HeaderFloods {
+		// a header announcing less than a header's length, and then as many bytes as the wrapped-around body length
+		// (65528 + length) takes - and more: the reader neither reports nor ends, it may not spin either
+		L, more := i%8, 66000*(1+i/8)
+		h := peer.Header{Type: 4, Status: 1, Length: uint16(L), Channel: 0}
+		w := h.Bytes()
+		w = append(w, make([]byte, more)...)
+		p.Kind, p.Subject = "header-flood", fmt.Sprintf("length=%d", L)
+		p.Desc = fmt.Sprintf("packet header with length %d followed by %d bytes", L, more)
+		p.Wire = hex.EncodeToString(w)
+		return p
+	}
+	i -= c10HeaderFloods
 	if i < len(fmtNames)*len(c10CrossSeqs) {
 		// every format followed by data tokens of its own and of the other family, each with the bytes of a
 		// valid data package of that format (without its token)
